@@ -23,7 +23,7 @@ def _match(sig, pattern):
         if k not in sig:
             return False
         if isinstance(v, list) and not isinstance(sig[k], list):
-            if sig[k] not in v:
+            if sig[k] not in v:      # a list in the pattern means 'one of'
                 return False
         elif sig[k] != v:
             return False
